@@ -85,3 +85,108 @@ class NormalizeValueMonotone(Contract):
         return (f(a.v1, a.triple, a.extrapolate), f(a.v2, a.triple, a.extrapolate))
 
     ensures = [prop("monotone", lambda a, old, r: r[0] <= r[1])]
+
+
+# -- supportScalar -------------------------------------------------------------
+
+def _tent_args(S, pfx=""):
+    return (S.real(pfx + "lower"), S.real(pfx + "peak"), S.real(pfx + "upper"))
+
+
+@contract
+class SupportScalarOT(Contract):
+    """ot=True, no extrapolation: the product over axes of the OT region scalar.
+    Shapes: 1 axis present / absent from the location, 2 axes (fold = product)."""
+    module = "fontTools.varLib.models"
+    qualname = "supportScalar"
+    props = ("C09", "C05", "C08", "C10")
+    variants = ("1axis", "1axis-missing", "2axes", "empty")
+    level = "PF"
+
+    def args(self, S, variant):
+        if variant == "empty":
+            return dict(location={"a": S.real("v")}, support={})
+        if variant == "1axis":
+            return dict(location={"a": S.real("v")}, support={"a": _tent_args(S)})
+        if variant == "1axis-missing":
+            return dict(location={}, support={"a": _tent_args(S)})
+        return dict(location={"a": S.real("v"), "b": S.real("w")},
+                    support={"a": _tent_args(S, "a."), "b": _tent_args(S, "b.")})
+
+    @staticmethod
+    def _spec(a):
+        r = 1
+        for axis, (l, p, u) in a.support.items():
+            v = a.location.get(axis, 0)
+            r = r * spec_region_axis_scalar(v, l, p, u)
+        return r
+
+    ensures = [
+        prop("equals-OT-region-scalar", lambda a, old, r: eq(r, SupportScalarOT._spec(a))),
+        prop("within-0-1", lambda a, old, r: And(0 <= r, r <= 1)),
+    ]
+
+
+def spec_tent_extrapolated(v, lower, peak, upper, axisMin, axisMax):
+    """Region scalar with linear extrapolation beyond [axisMin, axisMax]: inside the
+    axis range the ordinary OT scalar; outside, the line through the adjacent slope
+    of the tent continued (a tent that is flat-topped at the range end extrapolates
+    along its other side)."""
+    inside = spec_region_axis_scalar(v, lower, peak, upper)
+    up = div(v - lower, peak - lower)      # line through the rising side
+    down = div(v - upper, peak - upper)    # line through the falling side
+    return Ite(
+        Or(eq(peak, 0), lower > peak, peak > upper, And(lower < 0, upper > 0), eq(v, peak)), inside,
+        Ite(And(v < axisMin, lower <= axisMin),
+            Ite(And(peak <= axisMin, peak < upper), down, Ite(axisMin < peak, up, inside)),
+            Ite(And(axisMax < v, axisMax <= upper),
+                Ite(And(axisMax <= peak, lower < peak), up, Ite(peak < axisMax, down, inside)),
+                inside)))
+
+
+@contract
+class SupportScalarExtrapolate(Contract):
+    module = "fontTools.varLib.models"
+    qualname = "supportScalar"
+    props = ("C09",)
+    variants = ("1axis",)
+    level = "PF"
+
+    def args(self, S, variant):
+        return dict(location={"a": S.real("v")}, support={"a": _tent_args(S)}, ot=True, extrapolate=True,
+                    axisRanges={"a": (S.real("axisMin"), S.real("axisMax"))})
+
+    def requires(self, a):
+        return a.axisRanges["a"][0] <= a.axisRanges["a"][1]
+
+    ensures = [
+        prop("inside-range-equals-OT-scalar", lambda a, old, r: Implies(
+            And(a.axisRanges["a"][0] <= a.location["a"], a.location["a"] <= a.axisRanges["a"][1]),
+            eq(r, spec_region_axis_scalar(a.location["a"], *a.support["a"])))),
+        prop("outside-range-linear-continuation", lambda a, old, r: eq(
+            r, spec_tent_extrapolated(a.location["a"], *a.support["a"], *a.axisRanges["a"]))),
+    ]
+
+
+@contract
+class SupportScalarNonOT(Contract):
+    """ot=False: every axis participates; a missing axis is an AssertionError."""
+    module = "fontTools.varLib.models"
+    qualname = "supportScalar"
+    props = ("C09",)
+    variants = ("1axis", "missing")
+    level = "PF"
+
+    def args(self, S, variant):
+        loc = {"a": S.real("v")} if variant == "1axis" else {}
+        return dict(location=loc, support={"a": _tent_args(S)}, ot=False)
+
+    raises = {AssertionError: lambda a: "a" not in a.location}
+    expect_exceptional_only = ("missing",)
+
+    @staticmethod
+    def _spec(v, l, p, u):
+        return Ite(eq(v, p), 1, Ite(Or(v <= l, u <= v), 0,
+                                    Ite(v < p, div(v - l, p - l), div(v - u, p - u))))
+
+    ensures = [prop("tent-value", lambda a, old, r: eq(r, SupportScalarNonOT._spec(a.location["a"], *a.support["a"])))]
